@@ -3,7 +3,8 @@
 Proof by effect freedom (E1): the transitive effects of the pure entry points contain no state that
 outlives a call and no ambient input.  Rules:
 
-  C17.no-state      no static, thread-local or LocalKey is referenced below any pure entry point
+  C17.no-state      no static, thread-local or LocalKey is referenced below any pure entry point, nor below any getter of the parsed
+                    object or any C-table entry (the C error slot is reachable only through throw_err, which is cut out there)
   C17.leaves        every external callee belongs to a crate classified pure and matches no deny pattern
                     (rand, time, env, fs, io, net sockets, process, thread, RandomState/HashMap, sync, libc, ...)
   C17.no-ptr-int    no pointer<->integer cast or transmute (addresses must not leak into results)
@@ -101,6 +102,29 @@ def run(ctx):
         agg, seen = check_scope(ctx, facts, entries, cfg, table, 'pure entry points')
         ctx.sample({'config': cfg, 'entries': len(entries), 'reachable_local_bodies': len(seen),
                     'external_leaves': sorted(d for (k, d) in agg if k == 'ext')[:8], 'external_leaf_count': sum(1 for (k, d) in agg if k == 'ext')})
+        # second scope: the observers (getters of the parsed object, iterator accessors, every C-table entry).  Their answers must be
+        # functions of the object they are given: no static / thread-local / LocalKey and no ambient input below them.  The one
+        # legitimate thread-local, the C error slot, is reachable only through throw_err, which is cut out of the graph here.
+        obs = [k for k in sorted(facts.fns) if re.match(r'parsed_packet::ParsedPacket::(tid|flags|rcode|opcode|is_response|dnssec|question|question_raw|question_raw0|qtype_qclass|max_payload|packet)$', k)]
+        from rules.C16 import table_entries
+        obs += [k for k in (table_entries(facts) or []) if k in facts.fns]
+        eff2 = Effects(facts)
+        agg2, seen2, parent2 = eff2.transitive(obs, avoid=('c_abi::throw_err',))
+        nobs = 0
+        for (kind, d), uses in sorted(agg2.items()):
+            k0, site = uses[0]
+            if kind in ('static', 'tls', 'localkey'):
+                ctx.violation('C17.no-state', k0, 'observer:%s:%s' % (kind, d), '%s `%s` is referenced below a getter / C-table entry (%s): the answer can depend on earlier calls, not only on the object it is asked about'
+                              % ({'static': 'static', 'tls': 'thread-local static', 'localkey': 'thread_local! key'}[kind], d, ' -> '.join(x.split('::')[-1] for x in facts.path_to(parent2, k0)[-3:])),
+                              site=site, path=facts.path_to(parent2, k0), config=cfg)
+            elif kind == 'ext' and classify(d, table)[0] == 'deny' and classify(d, table)[1] != 'random numbers':
+                ctx.violation('C17.leaves', k0, 'observer:' + d, 'external callee `%s` (%s) is reachable from a getter / C-table entry' % (d, classify(d, table)[1]), site=site, config=cfg)
+        for k in sorted(seen2):
+            nobs += 1
+        ctx.instance('C17.no-state', 'observers: %d getters / table entries, %d bodies below them (throw_err cut out): no static / thread-local / LocalKey' % (len(obs), nobs),
+                     ok=not any(kind in ('static', 'tls', 'localkey') for (kind, d) in agg2))
+        if len(obs) < 30:
+            ctx.violation('C17.no-state', '<floor>', 'observers', 'found %d getters / table entries, expected at least 30' % len(obs), kind='below-floor')
         # rand confinement over the whole crate
         eff = Effects(facts)
         users = []
